@@ -300,12 +300,18 @@ def _siblings(ctx, trs_to_dict, construct):
             tx = norm(st)
             if tx.startswith(f"if {var} in"):
                 on = True
+            elif on and any(tx.startswith(f"if {o} in") for o in ('twp', 'rge', 'sec') if o != var):
+                break               # the next component's block starts
             if on:
                 out.append(tx)
                 if tx.startswith(f"if {var} != "):
                     break
         return ' ; '.join(out)
-    a, b = _rename(block('twp')), block('rge')
+    def shape(txt):
+        # component-neutral shape: twp/rge -> C, ns/ew -> D (word parts of identifiers)
+        txt = re.sub(r"(?i)twp|rge", 'C', txt)
+        return re.sub(r"(?<![A-Za-z])(ns|ew|NS|EW)(?![A-Za-z])|(?<=_)(ns|ew|NS|EW)\b|\b(ns|ew)(?=[._])", 'D', txt)
+    a, b = shape(block('twp')), shape(block('rge'))
     ctx.tri(bool(b) and a == b, bool(a) and bool(b) and a != b, 'SIB', 'construct_trs: Rge block is the Twp block under renaming',
             detail_bad=f"blocks differ:\n    twp(renamed): {a}\n    rge:          {b}",
             key="SIB|construct_trs|twp-rge")
